@@ -69,6 +69,12 @@ CHECKS = {
         "TLC checks per key path that the leaf sequences of the value and of Decode(Encode(value)) agree, one root, and an error exactly for non-scalar attribute entries; the harness compares the exact bytes of "
         "Map.Xml(), Map.Xml(root), AnyXml (Map and every top-level value) under both empty-element syntaxes, token equivalence of the indented forms, and the real decode of the output with the specification's.",
    ref="DESIGN.md section 4, C03", technique="TLA+ encoder spec + declarative leaf-preservation theorem (TLC), byte-exact spec->code replay"),
+ "C04": dict(
+   text="TLA+ specification MxjSeq of the sequence-preserving codec: DecodeSeq (per-parent counter over children, text, comments, directives, processing instructions; attribute positions; prefix-preserving names) "
+        "and EncodeSeq (attributes by position, text first, entries by sequence number with lists unrolled) with an exact-bytes renderer. TLC checks Encode(Decode(d)) = d (canonical form) for every document of the builder "
+        "families (all ordered attribute choices incl. xmlns and prefixed ones, interleavings of identically/differently named siblings, extras at every position, text alone or before children); the harness compares "
+        "NewMapXmlSeq[Reader] with DecodeSeq, MapSeq.Xml byte for byte, XmlIndent / BeautifyXml / NewMapFormattedXmlSeq token-wise, and executes the real round trip.",
+   ref="DESIGN.md section 4, C04", technique="TLA+ codec spec with round-trip theorem (TLC), byte-exact spec->code replay"),
 }
 NOT_YET = "machinery for this property is not built yet in this round (design in DESIGN.md section 4); no claim is made"
 
